@@ -170,6 +170,8 @@ fn through_text(rep: &mut Report, rng: &mut Rng, raw: &MapsDiff, what: &str) -> 
         Ok(Ok(q)) => {
             if foreign_endings { rep.count("text.line_endings.read"); }
             let got = maps::from_quill_diff(&q);
+            // `x<TAB>x` may be read as None or as Edit(x, x): the two mean the same (and the second still carries the stated old value)
+            let got = refmodel::normalise(&got);
             let dd = cmp::kinds(&cmp::diff_diffs(&nd, &got));
             for (k, w) in &dd { rep.violation(format!("C04 tinydiff: the diff read differs from the diff written: {k}"), json!({"where": w, "input": input(), "read": got.render()})); }
             if dd.is_empty() { rep.count("text.read_equals_written"); Some(q) } else { None }
@@ -393,6 +395,12 @@ fn pair_case(rng: &mut Rng, rep: &mut Report, i: u64) {
         en.comment = match &refd.comment { Act::Edit(x, y) if x == y => Act::None, o => o.clone() };
         on.comment = match &rd.comment { Act::Edit(x, y) if x == y => Act::None, o => o.clone() };
         on.info = rd.info.clone();
+        // a node that states nothing (itself and everything below it unchanged) may be listed or left out: the statement fixes what
+        // applying the diff yields (judged by the law above), not how sparse the diff is
+        if !cmp::diff_diffs(&en, &on).is_empty() {
+            let (pe, po) = (refmodel::prune(&en), refmodel::prune(&on));
+            if cmp::diff_diffs(&pe, &po).is_empty() { rep.count("pairs.diff.sparser_or_denser_than_reference (accepted)"); let keep = (en.comment.clone(), on.comment.clone(), on.info.clone()); en = pe; on = po; en.comment = keep.0; on.comment = keep.1; on.info = keep.2; }
+        }
         for (k, w) in cmp::kinds(&cmp::diff_diffs(&en, &on)) { rep.violation(format!("C04 diff: {k}"), json!({"where": w, "input": input(), "expected": refd.render(), "observed": rd.render()})); }
     }
     let (want, adjusted) = law_expectation(&a, &b);
